@@ -120,13 +120,13 @@ pub open spec fn fold_offs(ck: &CommitterKeyStream, tree: &FoldedTree) -> Seq<na
     Seq::new(tree.depth as nat, |l: int| (ck.powers_of_g@.len() - (tree.len + vstd::arithmetic::power2::pow2((l + 1) as nat) - 1) / (vstd::arithmetic::power2::pow2((l + 1) as nat) as int)) as nat)
 }
 impl CommitterKeyStream {
-//@fn id=streaming.space.open_folding file=poly-commit/src/streaming_kzg/space.rs scope="impl<E, SG> CommitterKeyStream<E, SG>" name=open_folding props=C14,C01
+//@fn id=streaming.space.open_folding file=poly-commit/src/streaming_kzg/space.rs scope="impl<E, SG> CommitterKeyStream<E, SG>" name=open_folding props=C14,C01,C19
     pub fn open_folding(&self, polynomials: FoldedTree, points: &[Fr], etas: &[Fr], max_msm_buffer: usize) -> (r: (Vec<Vec<Fr>>, EvaluationProof))
     requires
         points@.len() >= 1, polynomials.depth < 63, polynomials.len <= self.powers_of_g@.len(), self.powers_of_g@.len() < 0x4000_0000_0000_0000,
         etas@.len() >= polynomials.depth,      // (fewer batching challenges than levels: index out of bounds, abort)
     ensures
-        exists|qss: Seq<Seq<FS>>| #[trigger] fold_open_rel(self, &polynomials, points@, etas@, fold_offs(self, &polynomials), r.0@, r.1.0@, qss),   // name=streaming.space.open_folding.every_level_divided_by_the_vanishing_polynomial_and_one_batched_quotient_commitment props=C14,C01
+        exists|qss: Seq<Seq<FS>>| #[trigger] fold_open_rel(self, &polynomials, points@, etas@, fold_offs(self, &polynomials), r.0@, r.1.0@, qss),   // name=streaming.space.open_folding.every_level_divided_by_the_vanishing_polynomial_and_one_batched_quotient_commitment props=C14,C01,C19
 //@body
 //@rw 1 /HashMapPippenger::<E::G1>::new\(max_msm_buffer\)/ => HashMapPippenger::new(max_msm_buffer)
 //@rw 1 /let mut folded_bases = Vec::new\(\);/ => let mut folded_bases: Vec<SkipIter> = Vec::new();
